@@ -207,7 +207,7 @@ impl Check for C07 {
         "C07"
     }
     fn rule(&self) -> String {
-        "delegation trees of depth <=3 and fan-out <=3 built by a Byzantine delegatee/publisher; path sets from literals, '*', '?' and hash prefixes; <=6 target names (incl. names needing resolution such as x/../a) placed in any roles, the same name in several roles with different digests; every listed name is read back with every candidate content; non-trivial = some entry lies outside its delegated paths or is shadowed by an earlier pre-order entry; distinct = distinct canonical trace".into()
+        "delegation trees of depth <=3 and fan-out <=3 built by a Byzantine delegatee/publisher; path sets from literals, '*', '?' and hash prefixes; <=6 target names (incl. names needing resolution such as x/../a) placed in any roles, the same name in several roles with different digests; every listed name is read back with every candidate content; the client keeps a datastore and a refused repository is offered a second time; non-trivial = some entry lies outside its delegated paths or is shadowed by an earlier pre-order entry; distinct = distinct canonical trace".into()
     }
     fn assumptions(&self) -> Vec<String> {
         vec![
@@ -229,7 +229,7 @@ impl Check for C07 {
         vec!["entry_outside_delegated_paths", "same_name_in_several_roles", "name_needing_resolution"]
     }
     fn required_probes(&self, _t: Tier) -> Vec<&'static str> {
-        vec!["unauthorised_tree_refused_at_load", "shadowed_entry_content_refused", "reference_entry_served", "not_found_for_unlisted"]
+        vec!["unauthorised_tree_refused_at_load", "unauthorised_tree_refused_again_on_retry", "shadowed_entry_content_refused", "reference_entry_served", "not_found_for_unlisted"]
     }
     fn generate(&self, seed: u64, _tier: Tier) -> Sc {
         let mut r = Rng::new(seed);
@@ -383,8 +383,27 @@ impl Check for C07 {
         });
         let shipped = built.root.bytes();
         let t2 = transport.clone();
-        let loaded = block_on(async move { world::load(&shipped, t2, None, world::LoadOpts::default()).await });
+        // the client keeps a datastore: a refused repository is offered a second time, and what
+        // the refused attempt left behind must not make the retry succeed
+        let scratch = crate::engine::Scratch::new();
+        let ds = scratch.dir("datastore");
+        let (shipped_a, ds_a) = (shipped.clone(), ds.clone());
+        let loaded = block_on(async move { world::load(&shipped_a, t2, Some(&ds_a), world::LoadOpts::default()).await });
         let must_fail = !unreachable.is_empty();
+        if must_fail && loaded.is_err() {
+            let t3 = transport.clone();
+            let (shipped_b, ds_b) = (shipped.clone(), ds.clone());
+            let retry = block_on(async move { world::load(&shipped_b, t3, Some(&ds_b), world::LoadOpts::default()).await.map(|_| ()) });
+            o.ev(format!("retry on the same datastore -> {:?}", retry.as_ref().map_err(variant)));
+            if retry.is_ok() {
+                o.violate(
+                    "unreachable-entry-accepted-at-load:on-retry",
+                    format!("the first load was refused, the second load on the same datastore succeeded although no authorised chain reaches {unreachable:?}"),
+                );
+            } else {
+                o.probe("unauthorised_tree_refused_again_on_retry");
+            }
+        }
         match &loaded {
             Ok(_) => {
                 if must_fail {
